@@ -133,6 +133,9 @@ func init() {
 		it.MapOrderNondet = args[0].(bool)
 		return nil
 	})
+	vr("Tier", func(it *Interp, fn *ssa.Function, args []Value, site ssa.Instruction) Value {
+		return uint64(it.cfg.Tier)
+	})
 	vr("Symbolic", func(it *Interp, fn *ssa.Function, args []Value, site ssa.Instruction) Value {
 		return it.cfg.Concrete == nil
 	})
